@@ -430,8 +430,8 @@ def i_mulscc(ins, fmap):
     src1, src2, dst = ins.operands
     s10 = fmap(src1[0:1])
     multiplier = fmap(src2)
-    _rs1 = fmap(src1 >> 1)
-    _rs1[31:32] = fmap(nf ^ vf)
+    # (item assignment only works in place on compositions, not on constants)
+    _rs1 = composer([fmap(src1[1:32]), fmap(nf ^ vf)])
     # (a python 'if' on a symbolic condition would silently take one branch)
     op2 = tst(fmap(y[0:1]) == 0, cst(0, 32), fmap(src2)).simplify()
     _r, carry, overflow = AddWithCarry(_rs1, op2)
@@ -443,9 +443,7 @@ def i_mulscc(ins, fmap):
     if dst is not g0:
         fmap[dst] = _r
     # update Y:
-    _y = fmap(y >> 1)
-    _y[31:32] = s10
-    fmap[y] = _y
+    fmap[y] = composer([fmap(y[1:32]), s10])
 
 
 @__pcnpc
